@@ -98,6 +98,10 @@ type Term struct {
 }
 
 type TB struct {
+	Rewrite  map[*Term]*Term // oriented precondition equalities: entry-state load paths -> defining terms
+	oldCache map[*Term]bool
+	Known    map[*Term]bool // case assumptions: these Bool terms fold to their value while set
+	selDepth int
 	OldRefs map[*Term]bool // reference terms assumed to be allocated before the function under verification
 	tab   map[string]*Term
 	next  int
@@ -167,6 +171,16 @@ func (tb *TB) key(op string, sort Sort, name string, val *big.Int, args []*Term,
 func (tb *TB) mk(op string, sort Sort, name string, val *big.Int, args ...*Term) *Term {
 	k := tb.key(op, sort, name, val, args, nil)
 	if t, ok := tb.tab[k]; ok {
+		if sort == SBool && len(tb.Known) > 0 {
+			if v, ok := tb.Known[t]; ok {
+				return tb.Bool(v)
+			}
+		}
+		if len(tb.Rewrite) > 0 {
+			if r, ok := tb.Rewrite[t]; ok {
+				return r
+			}
+		}
 		return t
 	}
 	tb.next++
@@ -459,11 +473,130 @@ func mask(w int) *big.Int {
 	return m.Sub(m, big.NewInt(1))
 }
 
+// linear form of a bit-vector term: sum of coeff*atom plus constant (all modulo 2^w)
+type linForm struct {
+	coef map[*Term]*big.Int
+	cst  *big.Int
+}
+
+func (tb *TB) linOf(t *Term, w int, mul *big.Int, into *linForm, depth int) {
+	m := new(big.Int).Lsh(big.NewInt(1), uint(w))
+	switch {
+	case t.Op == "bvlit":
+		into.cst.Add(into.cst, new(big.Int).Mul(mul, t.Val))
+		into.cst.Mod(into.cst, m)
+		return
+	case t.Op == "bvadd" && depth < 64:
+		for _, a := range t.Args {
+			tb.linOf(a, w, mul, into, depth+1)
+		}
+		return
+	case t.Op == "bvsub" && len(t.Args) == 2 && depth < 64:
+		tb.linOf(t.Args[0], w, mul, into, depth+1)
+		neg := new(big.Int).Neg(mul)
+		neg.Mod(neg, m)
+		tb.linOf(t.Args[1], w, neg, into, depth+1)
+		return
+	case t.Op == "bvneg" && depth < 64:
+		neg := new(big.Int).Neg(mul)
+		neg.Mod(neg, m)
+		tb.linOf(t.Args[0], w, neg, into, depth+1)
+		return
+	case t.Op == "bvmul" && len(t.Args) == 2 && depth < 64:
+		if t.Args[0].Op == "bvlit" {
+			nm := new(big.Int).Mul(mul, t.Args[0].Val)
+			nm.Mod(nm, m)
+			tb.linOf(t.Args[1], w, nm, into, depth+1)
+			return
+		}
+		if t.Args[1].Op == "bvlit" {
+			nm := new(big.Int).Mul(mul, t.Args[1].Val)
+			nm.Mod(nm, m)
+			tb.linOf(t.Args[0], w, nm, into, depth+1)
+			return
+		}
+	}
+	c, ok := into.coef[t]
+	if !ok {
+		c = new(big.Int)
+		into.coef[t] = c
+	}
+	c.Add(c, mul)
+	c.Mod(c, m)
+}
+
+// linBuild rebuilds a canonical term from a linear form.
+func (tb *TB) linBuild(lf *linForm, w int) *Term {
+	m := new(big.Int).Lsh(big.NewInt(1), uint(w))
+	half := new(big.Int).Rsh(m, 1)
+	var atoms []*Term
+	for a, c := range lf.coef {
+		if c.Sign() != 0 {
+			atoms = append(atoms, a)
+		}
+	}
+	sort.Slice(atoms, func(i, j int) bool { return atoms[i].id < atoms[j].id })
+	var acc *Term
+	var negs []*Term
+	for _, a := range atoms {
+		c := lf.coef[a]
+		var term *Term
+		neg := false
+		switch {
+		case c.Cmp(big.NewInt(1)) == 0:
+			term = a
+		case new(big.Int).Add(c, big.NewInt(1)).Cmp(m) == 0: // -1
+			term, neg = a, true
+		case c.Cmp(half) > 0:
+			pc := new(big.Int).Sub(m, c)
+			term, neg = tb.mk("bvmul", a.Sort, "", nil, tb.BVBig(pc, w), a), true
+		default:
+			term = tb.mk("bvmul", a.Sort, "", nil, tb.BVBig(c, w), a)
+		}
+		if neg {
+			negs = append(negs, term)
+			continue
+		}
+		if acc == nil {
+			acc = term
+		} else {
+			acc = tb.mk("bvadd", a.Sort, "", nil, acc, term)
+		}
+	}
+	sortW := BVSort(w)
+	if acc == nil {
+		if len(negs) == 0 {
+			return tb.BVBig(lf.cst, w)
+		}
+		acc = tb.mk("bvneg", sortW, "", nil, negs[0])
+		negs = negs[1:]
+	}
+	for _, n := range negs {
+		acc = tb.mk("bvsub", sortW, "", nil, acc, n)
+	}
+	if lf.cst.Sign() != 0 {
+		acc = tb.mk("bvadd", sortW, "", nil, acc, tb.BVBig(lf.cst, w))
+	}
+	return acc
+}
+
 func (tb *TB) BVBin(op string, a, b *Term) *Term {
 	if a.Sort != b.Sort {
 		panic(fmt.Sprintf("bv %s sort mismatch %s vs %s", op, a.Sort, b.Sort))
 	}
 	w := a.Sort.Width()
+	if (op == "bvadd" || op == "bvsub") && !(a.Op == "bvlit" && b.Op == "bvlit") {
+		lf := &linForm{coef: map[*Term]*big.Int{}, cst: new(big.Int)}
+		one := big.NewInt(1)
+		tb.linOf(a, w, one, lf, 0)
+		if op == "bvadd" {
+			tb.linOf(b, w, one, lf, 0)
+		} else {
+			neg := new(big.Int).Sub(new(big.Int).Lsh(big.NewInt(1), uint(w)), big.NewInt(1))
+			tb.linOf(b, w, neg, lf, 0)
+		}
+		return tb.linBuild(lf, w)
+	}
 	if a.Op == "bvlit" && b.Op == "bvlit" {
 		x, y := a.Val, b.Val
 		r := new(big.Int)
@@ -632,7 +765,7 @@ func (tb *TB) BVNeg(a *Term) *Term {
 	if a.Op == "bvlit" {
 		return tb.BVBig(new(big.Int).Neg(a.Val), a.Sort.Width())
 	}
-	return tb.mk("bvneg", a.Sort, "", nil, a)
+	return tb.BVBin("bvsub", tb.BV(0, a.Sort.Width()), a)
 }
 
 func (tb *TB) BVCmp(op string, a, b *Term) *Term {
@@ -784,6 +917,16 @@ func (tb *TB) Select(a, i *Term) *Term {
 	if a.Op == "constarr" {
 		return a.Args[0]
 	}
+	if a.Op == "ite" && !i.open && tb.selDepth < 6 {
+		// push the read into the branches when that lets a store chain resolve
+		if a.Args[1].Op == "store" || a.Args[2].Op == "store" || a.Args[1].Op == "ite" || a.Args[2].Op == "ite" || a.Args[1].Op == "constarr" || a.Args[2].Op == "constarr" {
+			tb.selDepth++
+			x := tb.Select(a.Args[1], i)
+			y := tb.Select(a.Args[2], i)
+			tb.selDepth--
+			return tb.Ite(a.Args[0], x, y)
+		}
+	}
 	return tb.mk("select", elem, "", nil, a, i)
 }
 
@@ -807,7 +950,7 @@ func (tb *TB) syntDistinct(a, b *Term) bool {
 	}
 	// a reference allocated during the run vs. one known to predate the run
 	if a.Sort == SRef {
-		if (tb.isNewRef(a) && tb.OldRefs[b]) || (tb.isNewRef(b) && tb.OldRefs[a]) {
+		if (tb.isNewRef(a) && tb.IsOldRef(b)) || (tb.isNewRef(b) && tb.IsOldRef(a)) {
 			return true
 		}
 	}
@@ -1269,10 +1412,13 @@ func (tb *TB) isNewRef(t *Term) bool {
 		return false
 	}
 	id := t.Args[0]
-	if id.Op == "const" && id.Name == "clock0" {
+	isClock := func(c *Term) bool {
+		return c.Op == "const" && (c.Name == "clock0" || strings.HasPrefix(c.Name, "clk!"))
+	}
+	if isClock(id) {
 		return true
 	}
-	if id.Op == "+" && id.Args[0].Op == "const" && id.Args[0].Name == "clock0" && id.Args[1].Op == "intlit" && id.Args[1].Val.Sign() >= 0 {
+	if id.Op == "+" && isClock(id.Args[0]) && id.Args[1].Op == "intlit" && id.Args[1].Val.Sign() >= 0 {
 		return true
 	}
 	if id.Op == "+" && id.Args[0].Op == "+" {
@@ -1281,4 +1427,50 @@ func (tb *TB) isNewRef(t *Term) bool {
 		return x.Args[0].Op == "const" && x.Args[0].Name == "clock0" && x.Args[1].Op == "intlit" && id.Args[1].Op == "intlit"
 	}
 	return false
+}
+
+
+// IsOldRef: a reference that predates the function under verification: a registered parameter part,
+// or a value read out of the entry state (built only from parameters, initial heaps h0_*, globals).
+func (tb *TB) IsOldRef(t *Term) bool {
+	if tb.OldRefs[t] {
+		return true
+	}
+	if t.Sort != SRef {
+		return false
+	}
+	if v, ok := tb.oldCache[t]; ok {
+		return v
+	}
+	var pure func(x *Term, d int) bool
+	pure = func(x *Term, d int) bool {
+		if d > 12 {
+			return false
+		}
+		switch x.Op {
+		case "const":
+			return strings.HasPrefix(x.Name, "p_") || strings.HasPrefix(x.Name, "h0_") || strings.HasPrefix(x.Name, "G_") || strings.HasPrefix(x.Name, "fv_")
+		case "select", "acc":
+			for _, a := range x.Args {
+				if !pure(a, d+1) {
+					return false
+				}
+			}
+			return true
+		case "bvlit", "intlit":
+			return true
+		case "ctor":
+			if x.Name == "sub" {
+				return pure(x.Args[0], d+1)
+			}
+			return false
+		}
+		return false
+	}
+	r := (t.Op == "select" || t.Op == "acc" || (t.Op == "ctor" && t.Name == "sub")) && pure(t, 0)
+	if tb.oldCache == nil {
+		tb.oldCache = map[*Term]bool{}
+	}
+	tb.oldCache[t] = r
+	return r
 }
